@@ -21,6 +21,7 @@ def dispatch (e op : String) (a r : Json) : Except String Reply :=
   | "pkt" => Receptor.Drive.Pkt.handle op a r
   | "fw" => Receptor.Drive.Fw.handle op a r
   | "cert" => Receptor.Drive.Cert.handle op a r
+  | "verify" => Receptor.Drive.Cert.handle op a r
   | "flood" => Receptor.Drive.Flood.handle op a r
   | "route" => Receptor.Drive.Route.handle op a r
   | "aging" => Receptor.Drive.Aging.handle op a r
